@@ -182,6 +182,17 @@ def gen_case(rng, max_n=7, max_len=8, max_calls=4, stub=False, min_distinct=2):
         "calls": [gen_call(rng) for _ in range(rng.randint(0, max_calls))],
         "stub": rng.randrange(1 << 30) if stub else None,
     }
+    if rng.random() < 0.07:
+        # ten or more distinct sequences: sequence numbers with two digits ('10.1' sorts before '2.1' as a string)
+        many = []
+        while len(many) < rng.randint(10, 13):
+            w = gen_word(rng, 2, 4)
+            if w not in many:
+                many.append(w)
+        if rng.random() < 0.5:
+            many.insert(rng.randrange(len(many)), list(rng.choice(many)))
+        case["seqs"] = many
+        case["calls"] = case["calls"][:2]
     if rng.random() < 0.35:
         for _ in range(rng.choice([1, 1, 2])):
             case["calls"].insert(rng.randrange(len(case["calls"]) + 1), gen_realign(rng, case))
